@@ -293,8 +293,19 @@ def _task_objects(task):
                 lib = calibrators.PolynomialCalibrator([calibrators.PolynomialCoefficient(float(c), int(e)) for c, e in cal.terms])
                 grid = [-4, -1.5, -0.25, 0, 0.5, 1, 2.75, 8, 31, 255.5]
             else:
-                lib = calibrators.SplineCalibrator([calibrators.SplinePoint(float(r), float(c)) for r, c in cal.points], order=cal.order,
-                                                   extrapolate=cal.extrapolate)
+                # the points are handed over as a list the caller goes on to re-use (cleared / reversed / refilled afterwards), a tuple, or a
+                # one-shot generator: the calibrator keeps the points it was given
+                pts = [calibrators.SplinePoint(float(r), float(c)) for r, c in cal.points]
+                form = (len(cal.points) + cal.order + (1 if cal.extrapolate else 0) + int(abs(cal.points[0][1]) * 4)) % 5
+                arg = (pts, pts, tuple(pts), (p_ for p_ in pts), pts)[form]
+                lib = calibrators.SplineCalibrator(arg, order=cal.order, extrapolate=cal.extrapolate)
+                if form == 0:
+                    pts.clear()
+                elif form == 1:
+                    pts.reverse()
+                    pts.append(calibrators.SplinePoint(1e6, -1e6))
+                elif form == 4:
+                    pts[:] = [calibrators.SplinePoint(100.0, 0.0), calibrators.SplinePoint(200.0, 1.0)]
                 xs = sorted(r for r, _ in cal.points)
                 grid = sorted(set(xs + [(a + b) / 2 for a, b in zip(xs, xs[1:])] + [(3 * a + b) / 4 for a, b in zip(xs, xs[1:])]
                                   + [xs[0] - 0.5, xs[0] - 16, xs[-1] + 0.5, xs[-1] + 16]))
